@@ -86,7 +86,7 @@ class GroupProxNewton(BaseSolver):
             stop_crit = max(stop_crit, intercept_opt)
 
             if self.verbose:
-                p_obj = datafit.value(y, w, Xw) + penalty.value(w)
+                p_obj = datafit.value(y, w, Xw) + penalty.value(w[:n_features])
                 print(
                     f"Iteration {iter+1}: {p_obj:.10f}, "
                     f"stopping crit: {stop_crit:.2e}"
@@ -96,7 +96,7 @@ class GroupProxNewton(BaseSolver):
                 break
 
             # build working set ws
-            gsupp_size = penalty.generalized_support(w).sum()
+            gsupp_size = penalty.generalized_support(w[:n_features]).sum()
             ws_size = max(min(self.p0, n_groups),
                           min(n_groups, 2 * gsupp_size))
             ws = np.argpartition(opt, -ws_size)[-ws_size:]  # k-largest items (no sort)
@@ -264,7 +264,7 @@ def _backtrack_line_search(X, y, w, Xw, fit_intercept, datafit, penalty, delta_w
     n_features_ws = sum([grp_ptr[g+1] - grp_ptr[g] for g in ws])
 
     # TODO: could be improved by passing in w[ws]
-    old_penalty_val = penalty.value(w)
+    old_penalty_val = penalty.value(w[:n_features])
 
     # try step = 1, 1/2, 1/4, ...
     for _ in range(MAX_BACKTRACK_ITER):
@@ -283,7 +283,7 @@ def _backtrack_line_search(X, y, w, Xw, fit_intercept, datafit, penalty, delta_w
         grad_ws = _construct_grad(X, y, w[:n_features], Xw, datafit, ws)
 
         # TODO: could be improved by passing in w[ws]
-        stop_crit = penalty.value(w[:-1]) - old_penalty_val
+        stop_crit = penalty.value(w[:n_features]) - old_penalty_val
         stop_crit += step * grad_ws @ delta_w_ws[:n_features_ws]
 
         if fit_intercept:
